@@ -19,6 +19,12 @@ pub struct Step {
     /// property is silent afterwards (the session must nevertheless stay alive)
     #[serde(default)]
     pub tailcall: bool,
+    /// a type pattern that narrows this variable for the steps after it
+    #[serde(default)]
+    pub narrows: Option<String>,
+    /// only type-checks with this variable narrowed by an earlier step
+    #[serde(default)]
+    pub needs_narrowed: Option<String>,
 }
 
 #[derive(Clone, Debug, Serialize, Deserialize, Default)]
@@ -47,6 +53,8 @@ const REJECTED: [&str; 11] = [
     "q = %mm2, q.nosuchfield",
 ];
 const MM: &str = "[add: #['int, 'int] { __integer_add__ }, k: 7, b: [0x0a, 0x0b] __binary_concat__]";
+/// widens an int to 'bin | 'int
+const WD: &str = "wd = #'int { | =0 => 0x00 | =n => n }";
 const MM2: &str = "[twice: #'int { [~, 2] __integer_multiply__ }]";
 
 struct G {
@@ -59,6 +67,8 @@ struct G {
     hfns: Vec<String>,
     optf: Vec<String>,
     clsf: Vec<String>,
+    unions: Vec<String>,
+    narrowed: Vec<String>,
     n: usize,
     last_int: bool,
     lit: u8,
@@ -100,7 +110,7 @@ impl G {
         format!("[{a}, {l}] __binary_concat__")
     }
     fn step(&mut self, rng: &mut Rng) -> Vec<Step> {
-        let s = |src: String| Step { src, alias: false, fails: false, tailcall: false };
+        let s = |src: String| Step { src, alias: false, fails: false, tailcall: false, narrows: None, needs_narrowed: None };
         let mut out = Vec::new();
         let was_int = self.last_int;
         self.last_int = false;
@@ -110,9 +120,29 @@ impl G {
             self.last_int = true;
             return out;
         }
+        // a variable of a union type, narrowed by a type pattern on one step and used at the narrowed
+        // type on a later one
+        if !self.narrowed.is_empty() && rng.chance(1, 4) {
+            let u = rng.pick(&self.narrowed).clone();
+            out.push(Step { src: format!("[{u}, {}] __integer_add__", rng.range(1, 9)), alias: false, fails: false, tailcall: false, narrows: None, needs_narrowed: Some(u) });
+            self.last_int = true;
+            return out;
+        }
+        if !self.unions.is_empty() && rng.chance(1, 3) {
+            let u = self.unions.remove(rng.usize(self.unions.len()));
+            out.push(Step { src: format!("{u} ='int"), alias: false, fails: false, tailcall: false, narrows: Some(u.clone()), needs_narrowed: None });
+            self.narrowed.push(u);
+            return out;
+        }
+        if rng.chance(1, 14) {
+            let u = self.fresh("u");
+            out.push(s(format!("{u} = {} wd", rng.range(1, 90))));
+            self.unions.push(u);
+            return out;
+        }
         if rng.chance(1, 10) {
             let ty = self.fresh("al");
-            out.push(Step { src: format!("'{ty} = ['int, 'bin]"), alias: true, fails: false, tailcall: false });
+            out.push(Step { src: format!("'{ty} = ['int, 'bin]"), alias: true, fails: false, tailcall: false, narrows: None, needs_narrowed: None });
             self.last_int = was_int;
             return out;
         }
@@ -141,14 +171,14 @@ impl G {
         }
         if !self.fns.is_empty() && rng.chance(1, 6) {
             let f = rng.pick(&self.fns).clone();
-            out.push(Step { src: format!("{} ^{f}", rng.range(1, 30)), alias: false, fails: false, tailcall: true });
+            out.push(Step { src: format!("{} ^{f}", rng.range(1, 30)), alias: false, fails: false, tailcall: true, narrows: None, needs_narrowed: None });
             return out;
         }
         match rng.below(28) {
             24 => {
                 // an alias-only step is transparent to the flow: the previous value keeps flowing
                 let ty = self.fresh("al");
-                out.push(Step { src: format!("'{ty} = ['int, 'bin]"), alias: true, fails: false, tailcall: false });
+                out.push(Step { src: format!("'{ty} = ['int, 'bin]"), alias: true, fails: false, tailcall: false, narrows: None, needs_narrowed: None });
                 self.last_int = was_int;
                 if was_int && rng.chance(1, 2) {
                     out.push(s(format!("[~, {}] __integer_add__", rng.range(1, 9))));
@@ -173,8 +203,8 @@ impl G {
             20 => {
                 // a pattern type whose set of inhabitants grows on later lines
                 let (v, o) = (self.fresh("vv"), self.fresh("opt"));
-                out.push(Step { src: format!("'{v} = 'int | 'bin"), alias: true, fails: false, tailcall: false });
-                out.push(Step { src: format!("'{o} = Some['{v}] | None"), alias: true, fails: false, tailcall: false });
+                out.push(Step { src: format!("'{v} = 'int | 'bin"), alias: true, fails: false, tailcall: false, narrows: None, needs_narrowed: None });
+                out.push(Step { src: format!("'{o} = Some['{v}] | None"), alias: true, fails: false, tailcall: false, narrows: None, needs_narrowed: None });
                 let n = self.fresh("of");
                 out.push(s(format!("{n} = #'{o} {{ | =Some[x] => x | 0 }}")));
                 self.optf.push(n);
@@ -298,7 +328,7 @@ impl G {
             }
             16 => {
                 let ty = self.fresh("ty");
-                out.push(Step { src: format!("'{ty} = 'int | 'bin"), alias: true, fails: false, tailcall: false });
+                out.push(Step { src: format!("'{ty} = 'int | 'bin"), alias: true, fails: false, tailcall: false, narrows: None, needs_narrowed: None });
                 let n = self.fresh("h");
                 out.push(s(format!("{n} = #'{ty} {{ | ='int => 1 | 2 }}")));
                 self.hfns.push(n);
@@ -381,9 +411,9 @@ impl Property for C11 {
         vec!["line_value_compared", "vars_compared", "rejected_line_between_accepted", "line_with_several_steps", "second_session_interleaved", "repl_compaction_with_heap_locals", "background_process_awaited_on_later_line", "lines_after_top_level_tail_call"]
     }
     fn generate(&self, rng: &mut Rng, _tier: Tier) -> Scenario {
-        let mut g = G { ints: vec![], bins: vec![], tuples: vec![], fns: vec![], gfns: vec![], procs: vec![], hfns: vec![], optf: vec![], clsf: vec![], n: 0, last_int: false, lit: 0x20 };
-        let mut steps: Vec<Step> = vec![Step { src: super::c04::SPIN.to_string(), alias: false, fails: false, tailcall: false }];
-        let n = 3 + rng.usize(8);
+        let mut g = G { ints: vec![], bins: vec![], tuples: vec![], fns: vec![], gfns: vec![], procs: vec![], hfns: vec![], optf: vec![], clsf: vec![], unions: vec![], narrowed: vec![], n: 0, last_int: false, lit: 0x20 };
+        let mut steps: Vec<Step> = vec![Step { src: super::c04::SPIN.to_string(), alias: false, fails: false, tailcall: false, narrows: None, needs_narrowed: None }, Step { src: WD.to_string(), alias: false, fails: false, tailcall: false, narrows: None, needs_narrowed: None }];
+        let n = 4 + rng.usize(8);
         let mut h = crate::rng::Fnv::default();
         while steps.len() < n + 1 {
             for s in g.step(rng) {
@@ -400,12 +430,12 @@ impl Property for C11 {
             let bound_at = steps.iter().position(|s| s.src.starts_with(&format!("{a} = ")) || s.src.contains(&format!("[{a}, ")) || s.src.contains(&format!(", {a}] ="))).unwrap_or(steps.len() - 1);
             let pos = bound_at + 1 + rng.usize(steps.len() - bound_at);
             let pos = (pos..=steps.len()).find(|p| *p >= steps.len() || (!steps[*p].alias && !steps[*p].src.starts_with("[~"))).unwrap_or(steps.len());
-            steps.insert(pos.min(steps.len()), Step { src: format!("{a} =999999"), alias: false, fails: false, tailcall: false });
+            steps.insert(pos.min(steps.len()), Step { src: format!("{a} =999999"), alias: false, fails: false, tailcall: false, narrows: None, needs_narrowed: None });
             h.u64(0x111);
         }
         if rng.chance(1, 8) && !g.ints.is_empty() {
             let a = g.ints[0].clone();
-            steps.push(Step { src: format!("[{a}, 0] __integer_divide__"), alias: false, fails: true, tailcall: false });
+            steps.push(Step { src: format!("[{a}, 0] __integer_divide__"), alias: false, fails: true, tailcall: false, narrows: None, needs_narrowed: None });
             h.u64(0xdead);
         }
         let mut rejected = Vec::new();
@@ -521,6 +551,48 @@ impl Property for C11 {
     fn monitor(&self, _scn: &Scenario) -> Box<dyn Monitor + Send> {
         Box::new(super::c06::HeapMonitor::new("C11"))
     }
+    fn pinned(&self) -> Vec<super::Pinned> {
+        // static facts established by a fallible pattern step are not carried to later lines
+        let st = |src: &str, narrows: Option<&str>, needs: Option<&str>| Step { src: src.to_string(), alias: false, fails: false, tailcall: false, narrows: narrows.map(|s| s.to_string()), needs_narrowed: needs.map(|s| s.to_string()) };
+        let mut out = Vec::new();
+        let cases: [(&'static str, &'static str, Vec<Step>, Vec<&str>); 2] = [
+            (
+                "C11/line-value/narrowing-not-carried-across-lines",
+                "a variable narrowed by a type pattern on one line is used at the narrowed type on the next",
+                vec![st(WD, None, None), st("u1 = 7 wd", None, None), st("u1 ='int", Some("u1"), None), st("[u1, 1] __integer_add__", None, Some("u1"))],
+                vec![WD, "u1 = 7 wd", "u1 ='int", "[u1, 1] __integer_add__"],
+            ),
+            (
+                "C11/line-value/flow-typed-maybe-nil-after-fallible-line",
+                "the flowing value is used right after a line that holds a fallible pattern step",
+                vec![st(WD, None, None), st("u1 = 7 wd", None, None), st("u1 ='int", Some("u1"), None), st("5", None, None), st("[~, 1] __integer_add__", None, None)],
+                vec![WD, "u1 = 7 wd", "u1 ='int, 5", "[~, 1] __integer_add__"],
+            ),
+        ];
+        for (key, what, steps, lines) in cases {
+            let expect = Expect { steps, prefix_values: vec![], prefix_vars: vec![], rejected: vec![], other_session: vec![] };
+            let mut scenario = Scenario {
+                family: "c11-pinned".into(),
+                ops: vec![],
+                modules: vec![],
+                files: Default::default(),
+                timing: false,
+                io: false,
+                fixed_faults: Default::default(),
+                expect: serde_json::to_value(&expect).unwrap(),
+                shape: 1,
+                est_len: 100,
+                min_quantum: 0,
+            };
+            if !self.prepare(&mut scenario, 1).is_empty() {
+                continue;
+            }
+            scenario.ops = lines.iter().map(|l| ClientOp::Line { session: 0, src: l.to_string() }).collect();
+            let spec = reference_spec(&scenario, 1);
+            out.push(super::Pinned { key, what, scenario, spec });
+        }
+        out
+    }
     /// Once a line has evaluated to nil (or left through a top-level tail call, or failed), the
     /// one-program form never reaches the later steps: bindings of that line that were not reached
     /// read as nil afterwards, and e.g. awaiting such a "process" blocks the session's own line for
@@ -594,6 +666,7 @@ impl Property for C11 {
         // walk the executed script, tracking which step boundary each accepted line ends at
         let mut k_next = 0usize; // index of the next step to be consumed
         let mut any_nil_before = false;
+        let mut prev_line_fallible = false;
         for (op, out) in r.ops.iter().zip(r.outs.iter()) {
             match op {
                 ClientOp::Line { session: 0, src } => {
@@ -634,8 +707,16 @@ impl Property for C11 {
                     }
                     let expected = &e.prefix_values[end];
                     if out != expected {
+                        // does this line use, at its narrowed type, a variable that an EARLIER line narrowed?
+                        let narrowing_lost = matches!(out, Out::CompileError(m) if m.contains("TypeMismatch"))
+                            && e.steps[start..=end].iter().any(|s| s.needs_narrowed.as_ref().is_some_and(|u| e.steps[..start].iter().any(|t| t.narrows.as_ref() == Some(u)) && !e.steps[start..=end].iter().any(|t| t.narrows.as_ref() == Some(u))));
+                        // does it use the flowing value right after a line holding a fallible pattern step
+                        // (whose result type therefore includes nil)?
+                        let flow_maybe_nil = matches!(out, Out::CompileError(m) if m.contains("TypeMismatch")) && prev_line_fallible && e.steps[start..=end].iter().find(|s| !s.alias).is_some_and(|s| s.src.starts_with("[~"));
                         let cause = match (out, expected) {
                             (Out::Value(_), Out::Value(_)) => "different-value",
+                            (Out::CompileError(_), _) if narrowing_lost => "narrowing-not-carried-across-lines",
+                            (Out::CompileError(_), _) if flow_maybe_nil => "flow-typed-maybe-nil-after-fallible-line",
                             (Out::CompileError(_) | Out::ParseError, _) => "accepted-program-rejected-linewise",
                             (Out::RuntimeError(_), Out::Value(_)) => "runtime-error-linewise",
                             (Out::Value(_), Out::RuntimeError(_)) => "no-runtime-error-linewise",
@@ -644,6 +725,7 @@ impl Property for C11 {
                         v.push(Violation::new("C11", "line-value", cause, format!("line `{}` (steps {start}..={end}) gave {:?}; the same steps as one program give {:?}", src.chars().take(160).collect::<String>(), out, expected), r.steps));
                         return v;
                     }
+                    prev_line_fallible = e.steps[start..=end].iter().any(|s| s.narrows.is_some());
                     if matches!(expected, Out::Value(s) if s == "[]") || e.steps[start..=end].iter().any(|s| s.tailcall) {
                         any_nil_before = true;
                     }
